@@ -91,6 +91,8 @@ class Ctx:
                 continue
             if k.get("obligation") and k["obligation"] != v["obligation"]:
                 continue
+            if k.get("obligations") and v["obligation"] not in k["obligations"]:
+                continue
             if "case" in k and canon(k["case"]) != canon(v["case"]):
                 continue
             if "case_digest" in k and k["case_digest"] != digest(v["case"]):
@@ -264,22 +266,27 @@ def main(argv=None):
         frame.check(ctx, a.pid)  # frame condition shared by all properties (vf/frame.py)
         # every listed known finding is re-played on every run (both tiers): it must still fail on the real code to stay listed
         for k in ctx.known.get("findings", []):
-            if k.get("property") != a.pid or not k.get("input") or k in ctx.known_hit:
+            inputs = ([k["input"]] if k.get("input") else []) + list(k.get("inputs", []))
+            if k.get("property") != a.pid or not inputs:
                 continue
-            try:
-                import contextlib
-                import io
-                rec = json.load(open(os.path.join(VERIF, k["input"])))
-                with contextlib.redirect_stdout(io.StringIO()):
-                    rc = mod.replay(rec)
-            except Exception as e:  # noqa: BLE001
-                ctx.defects.append(f"known finding {k.get('input')}: replay crashed: {e!r}")
-                continue
-            if rc == 1:
-                k["_n"] = k.get("_n", 0) + 1
-                ctx.known_hit.append(k)
-            else:
-                print(f"NOTE: listed finding {k['input']} no longer reproduces on this tree (the entry can become a fixed: line)")
+            if ctx.tier == "quick":
+                inputs = inputs[:1]  # the cheapest witness on every change, all of them in the thorough tier
+            for inp in inputs:
+                try:
+                    import contextlib
+                    import io
+                    rec = json.load(open(os.path.join(VERIF, inp)))
+                    with contextlib.redirect_stdout(io.StringIO()):
+                        rc = mod.replay(rec)
+                except Exception as e:  # noqa: BLE001
+                    ctx.defects.append(f"known finding {inp}: replay crashed: {e!r}")
+                    continue
+                if rc == 1:
+                    k["_n"] = k.get("_n", 0) + 1
+                    if k not in ctx.known_hit:
+                        ctx.known_hit.append(k)
+                else:
+                    print(f"NOTE: the witness {inp} of a listed finding no longer reproduces on this tree (the entry can become a fixed: line)")
     except Exception:
         traceback.print_exc()
         ctx.defects.append(traceback.format_exc()[-1500:])
